@@ -10,6 +10,7 @@ package cert
 //      zz_verif_c04_hist_test.go, spec/CertIssue.tla.
 
 import (
+	"net/netip"
 	"crypto/ecdsa"
 	"crypto/rand"
 	"crypto/sha256"
@@ -164,6 +165,7 @@ func c04RunVector(w *ctWorld, res *vResult, id string, v *c04Vec) {
 	}
 	res.Hit("sign:ok")
 	c04Issued(w, res, "Sign", a, c, v.Exp.Acc)
+	c04Mapped(w, res, id, v)
 	// SignWith with a signer that returns high-S (and one that returns low-S) signatures
 	if key.ec != nil {
 		for _, high := range []bool{true, false} {
@@ -184,6 +186,61 @@ func c04RunVector(w *ctWorld, res *vResult, id string, v *c04Vec) {
 			c04Issued(w, res, how, a, c2, v.Exp.Acc)
 		}
 	}
+}
+
+// c04Mapped: the same (issuable) v2 certificate once more with its IPv4 unsafe networks written as IPv4-mapped IPv6
+// prefixes (::ffff:a.b.c.d/(96+n)) and an IPv6 address assignment next to them.  A mapped prefix is an IPv6 prefix: it
+// lies in none of the signer's IPv4 ranges (nor in its IPv6 ranges here), so a signer with an unsafe-network constraint
+// must refuse it.
+func c04Mapped(w *ctWorld, res *vResult, id string, v *c04Vec) {
+	a := v.In.C
+	if a.Ver != 2 || a.Issuer.none() || len(a.Issuer.Unsafe) == 0 {
+		return
+	}
+	tbs, signer, key := c04TBS(w, a, "c04m-"+id)
+	mapped := 0
+	for i, p := range tbs.UnsafeNetworks {
+		if p.Addr().Is4() {
+			tbs.UnsafeNetworks[i] = netip.PrefixFrom(netip.AddrFrom16(p.Addr().As16()), p.Bits()+96)
+			mapped++
+		}
+	}
+	if mapped == 0 {
+		return
+	}
+	has6 := false
+	for _, p := range tbs.Networks {
+		has6 = has6 || p.Addr().Is6()
+	}
+	if !has6 {
+		// an IPv6 assignment the signer allows: unconstrained signer -> any; otherwise one of its own IPv6 entries
+		var n6 netip.Prefix
+		if len(a.Issuer.Nets) == 0 {
+			n6 = netip.MustParsePrefix("fd00:77::1/64")
+		} else {
+			for _, p := range signer.Networks() {
+				if p.Addr().Is6() && !p.Addr().Is4In6() {
+					n6 = p
+					break
+				}
+			}
+		}
+		if !n6.IsValid() {
+			res.Hit("mapped-unsafe:no-ipv6-assignment-possible")
+			return
+		}
+		tbs.Networks = append(tbs.Networks, n6)
+	}
+	c, err := tbs.Sign(signer, key.curve, key.raw)
+	res.Hit("mapped-unsafe:tried")
+	if err != nil {
+		res.Hit("mapped-unsafe:refused")
+		return
+	}
+	pm, _ := c.MarshalPEM()
+	res.Mismatch("sign:succeeds:unsafe-outside-as-ipv4-mapped:v2",
+		fmt.Sprintf("Sign succeeds for unsafe networks %v, IPv4-mapped IPv6 prefixes that lie in none of the signer's unsafe ranges %v", tbs.UnsafeNetworks, signer.UnsafeNetworks()),
+		map[string]any{"abstract": a, "issued_pem": string(pm), "ca_pem": w.ca(a.Issuer).pem})
 }
 
 func TestVerif_C04(t *testing.T) {
